@@ -12,8 +12,8 @@ from vf.gen import rtl_gen
 
 ID = "C13"
 LEVEL = "exploration"
-RULE = ("case A = batch of generated translatable designs: each is translated by both backends in three fresh "
-        "subprocesses (PYTHONHASHSEED 0, 1 and a drawn value, identical file paths) and twice in-process; the SHA-256 of "
+RULE = ("case A = batch of generated translatable designs: each is translated by both backends in fresh "
+        "subprocesses (PYTHONHASHSEED 0, 1 and a drawn value; quick tier: 0 and a drawn value; identical file paths) and in-process; the SHA-256 of "
         "every emitted file must coincide. case B = generated naming-focused hierarchy: 2-4 instances of parametrised leaf "
         "classes (ints, bools, strs, Bits values, Bits types, None, lists, long lists that trigger hashing; values whose "
         "str() coincide such as 1/'1'/b1(1)) and of factory-made classes that share __name__ but differ in a closure "
@@ -84,10 +84,10 @@ def judge_a(case):
   try:
     batch = {"designs": case["designs"], "sources": []}
     runs = []
-    for hs in (0, 1, case["hashseed"]):
+    for hs in ((0, case["hashseed"]) if case.get("light") else (0, 1, case["hashseed"])):
       runs.append((f"subprocess PYTHONHASHSEED={hs}", run_worker(batch, wd, hs)["ir"]))
     runs.append(("in-process #1", in_process(batch, wd)))
-    runs.append(("in-process #2", in_process(batch, wd)))
+    if not case.get("light"): runs.append(("in-process #2", in_process(batch, wd)))
     base_name, base = runs[0]
     for name, r in runs[1:]:
       for i, (a, b) in enumerate(zip(base, r)):
@@ -231,7 +231,18 @@ def judge_b(case):
             mods = {iname: mname for mname, iname in d.modules[topmod].instances}
             iname = (lambda j_: f"cs__{j_}") if case.get("as_list") else (lambda j_: f"c{j_}")
             shared = [j2 for j2 in range(case["n"]) if mods.get(iname(j2)) == mods.get(iname(bad[0]))]
-            kind = "factory_classes_share_name" if case["insts"][bad[0]][0] == "factory" else "param_values_share_str"
+            def pstr(inst):
+              # what str() makes of the parameter values of a leaf instance (the module name is built from it)
+              from pymtl3.datatypes import Bits, b1, b2, Bits1, Bits4, Bits8   # names used in PARAM_VALUES
+              return (inst[1], str(eval(inst[2])), str(eval(inst[3])))
+            if case["insts"][bad[0]][0] == "factory":
+              kind = "factory_classes_share_name"
+            elif len({pstr(case["insts"][j2]) for j2 in shared if case["insts"][j2][0] == "leaf"}) == 1:
+              kind = "param_values_share_str"          # e.g. 1 vs '1' vs b1(1): known finding
+            elif which == "yosys" and case.get("as_list") and mods.get(iname(bad[0])) == mods.get(iname(0)):
+              kind = "yosys_component_list_uses_first_elements_module"      # known finding
+            else:
+              kind = "instances_with_different_parameter_strings_share_a_module"
             return (f"alias:{kind}", f"{which}: instance c{bad[0]} {case['insts'][bad[0]]} computes {got[bad[0]]}, PyMTL {exp[bad[0]]} "
                                      f"for in_={v}; module {mods.get(iname(bad[0]))} is shared by instances "
                                      f"{[(j2, case['insts'][j2]) for j2 in shared]}")
@@ -250,10 +261,10 @@ def judge(case):
 
 
 @st.composite
-def cases_a(draw, n):
-  designs = [draw(rtl_gen.designs(translatable=True, wide=False, max_steps=4, min_depth=draw(st.sampled_from([0, 1, 2])),
-                                  child_bias=1)) for _ in range(n)]
-  return {"kind": "A", "designs": designs, "hashseed": draw(st.integers(2, 2 ** 31 - 1))}
+def cases_a(draw, n, light=False):
+  designs = [draw(rtl_gen.designs(translatable=True, wide=False, max_steps=4, min_depth=draw(st.sampled_from([0, 1, 1, 2])),
+                                  child_bias=2, struct_bias=draw(st.sampled_from([0, 1, 2])))) for _ in range(n)]
+  return {"kind": "A", "designs": designs, "hashseed": draw(st.integers(2, 2 ** 31 - 1)), "light": light}
 
 
 def size_of(design):
@@ -262,12 +273,13 @@ def size_of(design):
 
 def run_shard(ctx):
   import time
-  per_batch = 6 if ctx.tier == "quick" else 12
+  per_batch = 4 if ctx.tier == "quick" else 12
   half = time.time() + 0.5 * max(0.0, ctx.deadline - time.time())     # part A may use half of the budget
 
   @seed(ctx.hseed())
-  @ctx.settings(ctx.n(16, 640))
-  @given(cases_a(per_batch))
+  # (Hypothesis' first example is always the minimal one: at least 3 examples per shard)
+  @ctx.settings(ctx.n(48, 960))
+  @given(cases_a(per_batch, light=ctx.tier == "quick"))
   def ta(case):
     if ctx.out_of_time() or time.time() > half:
       ctx.budget_exhausted = True
@@ -284,7 +296,7 @@ def run_shard(ctx):
   if ctx.violations: return
 
   @seed(ctx.hseed(1))
-  @ctx.settings(ctx.n(800, 20000))
+  @ctx.settings(ctx.n(1200, 40000))
   @given(naming_cases())
   def tb(case):
     if ctx.out_of_time(): return
